@@ -83,6 +83,10 @@ def extract(ctx):
     fired['task_group_context'] = rw.fired
     extract_walk(ctx, sliced, fired)
     extract_registry(ctx, sliced, fired)
+    extract_threads(ctx, sliced, fired)
+    cw = {}
+    closed_world(ctx, cw)
+    fired['closed_world'] = cw
     return sliced, fired
 
 
@@ -245,6 +249,133 @@ def extract_registry(ctx, sliced, fired):
     fired['registry'] = rw.fired
 
 
+TDC = 'src/tbb/thread_dispatcher.cpp'
+
+
+def extract_threads(ctx, sliced, fired):
+    """the registry of threads: cancellation_disseminator::{register_thread, unregister_thread}, the threading_control forwarders (register/unregister/propagate),
+    and the order of unregistration and list orphaning at thread exit: thread_dispatcher::cleanup, governor::auto_terminate, thread_data::~thread_data"""
+    rw = Rewriter('threads')
+    out = []
+    ctx.thread_list_mutexes = {}
+    for nm, op in (('register_thread', 'PUSH_FRONT'), ('unregister_thread', 'REMOVE')):
+        sig = r'void %s\(thread_data& td\)' % nm
+        s = slice_block(CD, sig, within=r'class cancellation_disseminator\b')
+        sliced.append('%s:%d cancellation_disseminator::%s' % (CD, s.line, nm))
+        t = rw.sub(s.text, sig, 'void dissem_%s(struct dissem* self, struct thread_data* td)' % nm, 1, 1, name='sig')
+        t = rw.sub(t, r'\bmy_threads_list\.(push_front|remove)\(td\);', lambda m: 'TLIST_%s(self, td);' % m.group(1).upper(), 0, None, name='intrusive_list<thread_data> operation -> contract stub (proved on real nodes in registry.ilist.*)')
+        t, mus = raii_lock(rw, t, None)
+        ctx.thread_list_mutexes[nm] = mus
+        t = rw.sub(t, r'(?<![\w.>])(my_threads_list_mutex|my_threads_list)\b', r'self->\1', 0, None, name='field')
+        t = rw.std(t)
+        out.append(t)
+    # forwarders: threading_control -> threading_control_impl -> cancellation_disseminator
+    for cls, cname, inner, icall in (('threading_control_impl', 'tci', 'my_cancellation_disseminator', 'STUB_dissem'), ('threading_control', 'tc', 'my_pimpl', 'tci')):
+        for nm, sig, csig in (('register_thread', r'void %s::register_thread\(thread_data& td\)' % cls, 'void %s_register_thread(struct %s* self, struct thread_data* td)' % (cname, cname)),
+                              ('unregister_thread', r'void %s::unregister_thread\(thread_data& td\)' % cls, 'void %s_unregister_thread(struct %s* self, struct thread_data* td)' % (cname, cname)),
+                              ('propagate_task_group_state', r'void %s::propagate_task_group_state\(std::atomic<uint32_t> d1::task_group_context::\*mptr_state,\s*d1::task_group_context& src, uint32_t new_state\)' % cls,
+                               'void %s_propagate_task_group_state(struct %s* self, struct tgc* src, uint32_t new_state)' % (cname, cname))):
+            s = slice_block(TC, sig)
+            sliced.append('%s:%d %s::%s' % (TC, s.line, cls, nm))
+            t = rw.sub(s.text, sig, csig, 1, 1, name='sig')
+            t = rw.sub(t, r'\b%s->(\w+)\(mptr_state, ' % inner, r'%s_\1(self->%s, ' % (icall, inner), 0, None, name='forwarded call (member pointer bound to my_cancellation_requested)')
+            t = rw.sub(t, r'\b%s->(\w+)\(' % inner, r'%s_\1(self->%s, ' % (icall, inner), 0, None, name='forwarded call')
+            t = rw.std(t)
+            out.append(t)
+    # thread exit
+    s = slice_block(TDH, r'~thread_data\(\)', within=r'class thread_data : public ::rml::job')
+    sliced.append('%s:%d thread_data::~thread_data' % (TDH, s.line))
+    t = cxx2c.cpp_resolve(s.text, {'__TBB_RESUMABLE_TASKS': 1}, '~thread_data')
+    t = rw.sub(t, r'~thread_data\(\)', 'void thread_data_dtor(struct thread_data* self)', 1, 1, name='sig')
+    t = rw.sub(t, r'\bmy_context_list->orphan\(\);', 'clist_orphan(self->my_context_list);', 0, None, name='context_list::orphan (real code, clist.inc)')
+    t = rw.sub(t, r'\bmy_small_object_pool->destroy\(\);', 'STUB_pool_destroy(self);', 0, None, name='callee stub')
+    t = rw.sub(t, r'poison_pointer\((\w+)\);', r'TD_POISON(self, \1);', 0, None, name='poison_pointer (no-op in the tested build) -> hook')
+    t = rw.std(t)
+    out.append(t)
+    s = slice_block(GOV, r'void governor::auto_terminate\(void\* tls\)')
+    sliced.append('%s:%d governor::auto_terminate' % (GOV, s.line))
+    t = s.text
+    lam = re.search(r'auto clear_tls = \[td\] \{(.*?)\};', t, re.S)
+    if not lam:
+        raise ExtractionBreak('governor::auto_terminate: the clear_tls lambda was not found')
+    body = lam.group(1)
+    t = t[:lam.start()] + 'RG_NOP();' + t[lam.end():]
+    rw.fired['lambda [td]{...} -> function clear_tls_body(td) (body text unchanged), call sites clear_tls() -> clear_tls_body(td)'] = 1
+
+    def exit_rules(x):
+        x = rw.sub(x, r'td->~thread_data\(\);', 'thread_data_dtor(td);', 0, None, name='destructor call (real code)')
+        x = rw.sub(x, r'cache_aligned_deallocate\(td\);', 'STUB_td_deallocate(td);', 0, None, name='deallocation -> stub')
+        x = rw.sub(x, r'(?<![\w.>])clear_thread_data\(\);', 'STUB_clear_thread_data();', 0, None, name='callee stub')
+        return x
+    body = exit_rules(body)
+    t = rw.sub(t, r'void governor::auto_terminate\(void\* tls\)', 'void governor_auto_terminate(void* tls)', 1, 1, name='sig')
+    t = rw.sub(t, r'__TBB_ASSERT\(get_thread_data_if_initialized\(\)[^;]*;', 'RG_NOP();', 0, None, name='TLS assertion -> RG_NOP')
+    t = rw.sub(t, r'thread_data\* td = static_cast<thread_data\*>\(tls\);', 'struct thread_data* td = (struct thread_data*)(tls);', 1, 1, name='cast')
+    t = rw.sub(t, r'\barena\* a = ', 'struct arena* a = ', 0, None, name='type')
+    t = rw.sub(t, r'\bthreading_control\* thr_control = ', 'struct tc* thr_control = ', 0, None, name='type')
+    t = rw.sub(t, r'!is_thread_data_set\(td\)', '!STUB_is_thread_data_set(td)', 0, None, name='callee stub')
+    t = rw.sub(t, r'(?<![\w.>])set_thread_data\(\*td\);', 'STUB_set_thread_data(td);', 0, None, name='callee stub')
+    t = rw.sub(t, r'a->my_observers\.notify_exit_observers\([^;]*\);', 'STUB_notify_exit_observers(a, td);', 0, None, name='callee stub')
+    t = rw.sub(t, r'td->leave_task_dispatcher\(\);', 'STUB_leave_task_dispatcher(td);', 0, None, name='callee stub')
+    t = rw.sub(t, r'td->my_arena_slot->release\(\);', 'STUB_slot_release(td);', 0, None, name='callee stub')
+    t = rw.sub(t, r'a->on_thread_leaving\(arena::ref_external\);', 'STUB_on_thread_leaving(a);', 0, None, name='callee stub')
+    t = rw.sub(t, r'(\w+)->unregister_thread\(\*td\);', r'tc_unregister_thread(\1, td);', 0, None, name='threading_control::unregister_thread (real code)')
+    t = rw.sub(t, r'(\w+)->unregister_public_reference\([^;]*\);', r'STUB_unregister_public_reference(\1);', 0, None, name='callee stub')
+    t = rw.sub(t, r'(?<![\w.>])clear_tls\(\);', 'clear_tls_body(td);', 0, None, name='lambda call')
+    t = rw.std(t)
+    out.append('void clear_tls_body(struct thread_data* td) {' + rw.std(body) + '}')
+    out.append(t)
+    s = slice_block(TDC, r'void thread_dispatcher::cleanup\(job& j\)')
+    sliced.append('%s:%d thread_dispatcher::cleanup' % (TDC, s.line))
+    t = rw.sub(s.text, r'void thread_dispatcher::cleanup\(job& j\)', 'void thread_dispatcher_cleanup(struct thread_dispatcher* self, struct thread_data* j)', 1, 1, name='sig (job& -> the thread_data it is)')
+    t = rw.sub(t, r'\bmy_threading_control\.unregister_thread\(static_cast<thread_data&>\(j\)\);', 'tc_unregister_thread(self->my_threading_control, j);', 0, None, name='threading_control::unregister_thread (real code)')
+    t = rw.sub(t, r'governor::auto_terminate\(&j\);', 'governor_auto_terminate(j);', 0, None, name='ns-strip')
+    t = rw.std(t)
+    out.append(t)
+    common.write(ctx, 'threads.inc', '\n'.join(out) + '\n')
+    fired['threads'] = rw.fired
+
+
+def closed_world(ctx, fired):
+    """Every access to the cancellation flag (directly or through the member pointer the propagation passes around) lies inside a function that is under contract here:
+    a new writer - e.g. something that clears the flag of a cancelled context - makes the run UNDECIDED instead of going unnoticed."""
+    import glob
+    TCH = 'src/tbb/threading_control.h'
+    allowed = {
+        TG: [r'void task_group_context_impl::initialize\(d1::task_group_context& ctx\)', r'void task_group_context_impl::bind_to_impl\(d1::task_group_context& ctx, thread_data\* td\)',
+             r'void task_group_context_impl::propagate_task_group_state\(d1::task_group_context& ctx,', r'bool task_group_context_impl::cancel_group_execution\(d1::task_group_context& ctx\)',
+             r'bool task_group_context_impl::is_group_execution_cancelled\(const d1::task_group_context& ctx\)', r'void task_group_context_impl::reset\(d1::task_group_context& ctx\)'],
+        TC: [r'void threading_control_impl::propagate_task_group_state\(', r'void threading_control::propagate_task_group_state\('],
+        CD: [r'bool propagate_task_group_state\(std::atomic<uint32_t> d1::task_group_context::\*mptr_state,'],
+        TDH: [r'inline void thread_data::propagate_task_group_state\('],
+    }
+    decl_ok = [r'^\s*(?:static )?void propagate_task_group_state\([^{}]*$', r'^\s*d1::task_group_context& src, uint32_t new_state\);\s*$', r'^\s*std::atomic<std::uint32_t> my_cancellation_requested;\s*$']
+    n = 0
+    files = sorted(glob.glob(os.path.join(cxx2c.REPO, 'src', 'tbb', '*.h')) + glob.glob(os.path.join(cxx2c.REPO, 'src', 'tbb', '*.cpp')) +
+                   glob.glob(os.path.join(cxx2c.REPO, 'include', 'oneapi', 'tbb', '*.h')) + glob.glob(os.path.join(cxx2c.REPO, 'include', 'oneapi', 'tbb', 'detail', '*.h')))
+    for path in files:
+        rel = os.path.relpath(path, cxx2c.REPO)
+        text = load(rel)
+        if 'my_cancellation_requested' not in text and 'mptr_state' not in text:
+            continue
+        mk = cxx2c.mask(text)
+        ext = []
+        for sig in allowed.get(rel, []):
+            s = slice_block(rel, sig)
+            ext.append((s.start, s.end))
+        for m in re.finditer(r'\bmy_cancellation_requested\b|\bmptr_state\b', mk):
+            if any(a <= m.start() < b for a, b in ext):
+                n += 1
+                continue
+            ls = text.rfind('\n', 0, m.start()) + 1
+            le = text.find('\n', m.start())
+            line = cxx2c.strip_comments(text[ls:le if le >= 0 else len(text)])
+            if any(re.search(d, line) for d in decl_ok):
+                continue
+            raise ExtractionBreak('closed-world scan: %s:%d touches the cancellation flag outside the functions under contract: %s' % (rel, text.count('\n', 0, m.start()) + 1, line.strip()[:160]))
+    fired['closed-world scan: accesses to my_cancellation_requested / mptr_state inside functions under contract'] = n
+
+
 CD = 'src/tbb/cancellation_disseminator.h'
 TDH = 'src/tbb/thread_data.h'
 
@@ -259,17 +390,17 @@ def extract_walk(ctx, sliced, fired):
     mp = re.findall(r'\w+::scoped_lock \w+\(([^)]*)\);', t)
     ctx.propagator_mutexes = [x.strip() for x in mp]
     t = rw.scoped_locks(t, r'\w+::scoped_lock \w+\(([^)]*)\);', 0, None)
-    t = rw.sub(t, r'\(src\.\*mptr_state\)\.load\(std::memory_order_relaxed\)', 'P_LOAD(src->my_cancellation_requested)', 1, 1, name='member-pointer load')
-    t = rw.sub(t, r'\bsrc\.', 'src->', 1, name='ref-param')
+    t = rw.sub(t, r'\(src\.\*mptr_state\)\.load\(std::memory_order_relaxed\)', 'P_LOAD(src->my_cancellation_requested)', 0, None, name='member-pointer load')
+    t = rw.sub(t, r'\bsrc\.', 'src->', 0, None, name='ref-param')
     t = rw.sub(t, r'd1::task_group_context::may_have_children', 'may_have_children', 0, name='enum scope')
     t = rw.sub(t, r'\+\+the_context_state_propagation_epoch;', 'ATOMIC_PREINC(the_context_state_propagation_epoch);', 0, None, name='atomic ++ (global epoch)')
     t = rw.sub(t, r'for \(auto& thr_data : my_threads_list\) \{', 'for (size_t it_ = 0; it_ < LIST_SIZE(my_threads_list); ++it_) { struct thread_data* thr_data = LIST_AT(my_threads_list, it_);', 1, 1, name='range-for over intrusive_list -> indexed loop over its sequence')
-    t = rw.sub(t, r'thr_data\.propagate_task_group_state\(mptr_state, src, new_state\);', 'td_propagate(thr_data, src, new_state);', 1, 1, name='method')
+    t = rw.sub(t, r'thr_data\.propagate_task_group_state\(mptr_state, src, new_state\);', 'td_propagate(thr_data, src, new_state);', 0, None, name='method')
     t = rw.sub(t, r'(?<![\w.>])(my_threads_list_mutex|my_threads_list)\b', r'self->\1', 2, name='field')
-    t = rw.atomics(t, ['my_may_have_children'], 1)
+    t = rw.atomics(t, ['my_may_have_children'], 0)
     t = rw.std(t)
     t = rw.number_sites(t, 'dis', by_kind=True)
-    t = tag_loops(t, 'dis', rw, expect=1)
+    t = tag_loops(t, 'dis', rw, names=[(r'LIST_SIZE\(self->my_threads_list\)', 'threads')])
     common.write(ctx, 'dissem.inc', t + '\n')
     s = slice_block(TDH, r'inline void thread_data::propagate_task_group_state\(std::atomic<std::uint32_t> d1::task_group_context::\* mptr_state, d1::task_group_context& src, std::uint32_t new_state\)')
     sliced.append('%s:%d thread_data::propagate_task_group_state' % (TDH, s.line))
@@ -278,13 +409,13 @@ def extract_walk(ctx, sliced, fired):
     t = rw.scoped_locks(t, r'\w+::scoped_lock \w+\(([^)]*)\);', 0, None)
     t = rw.sub(t, r'for \(context_list::iterator it = my_context_list->begin\(\); it != my_context_list->end\(\); \+\+it\) \{', 'for (size_t it = 0; it != LIST_SIZE(my_context_list); ++it) {', 1, 1, name='iterator loop over intrusive_list -> indexed loop over its sequence')
     t = rw.sub(t, r'd1::task_group_context& ctx = __TBB_get_object_ref\(d1::task_group_context, my_node, &\(\*it\)\);', 'struct tgc* ctx = LIST_AT(my_context_list, it);', 1, 1, name='node -> object')
-    t = rw.sub(t, r'\(ctx\.\*mptr_state\)\.load\(std::memory_order_relaxed\)', 'P_LOAD(ctx->my_cancellation_requested)', 1, 1, name='member-pointer load')
-    t = rw.sub(t, r'task_group_context_impl::propagate_task_group_state\(ctx, mptr_state, src, new_state\);', 'propagate_task_group_state(ctx, src, new_state);', 1, 1, name='callee (task_group_context_impl, proved in propagate.path)')
+    t = rw.sub(t, r'\(ctx\.\*mptr_state\)\.load\(std::memory_order_relaxed\)', 'P_LOAD(ctx->my_cancellation_requested)', 0, None, name='member-pointer load')
+    t = rw.sub(t, r'task_group_context_impl::propagate_task_group_state\(ctx, mptr_state, src, new_state\);', 'propagate_task_group_state(ctx, src, new_state);', 0, None, name='callee (task_group_context_impl, proved in propagate.path.any_depth.*)')
     t = rw.sub(t, r'(?<![\w.>])my_context_list\b', 'self->my_context_list', 3, name='field')
     t = rw.atomics(t, ['epoch', 'the_context_state_propagation_epoch'], 0)
     t = rw.std(t)
     t = rw.number_sites(t, 'tdp', by_kind=True)
-    t = tag_loops(t, 'tdp', rw, expect=1)
+    t = tag_loops(t, 'tdp', rw, names=[(r'LIST_SIZE\(self->my_context_list\)', 'contexts')])
     common.write(ctx, 'tdwalk.inc', t + '\n')
     fired['propagator'] = rw.fired
 
@@ -292,11 +423,9 @@ def extract_walk(ctx, sliced, fired):
 def build(ctx):
     sliced, fired = extract(ctx)
     C = os.path.join(HERE, 'c04.c')
-    d = 5 if ctx.tier == 'quick' else 8
+    d = 6
     jobs = [
         Job('cancel.one_winner', C, 'h_cancel', route='RG', defines=['CANCEL'], target='task_group_context_impl::cancel_group_execution', source=TG),
-        Job('propagate.path', C, 'h_propagate', route='BD', bound_text='context trees of depth <= %d (ancestor chain walk unwound)' % d, defines=['PROP', 'DEPTH=%d' % d], unwind=d + 3, timeout=600,
-            target='task_group_context_impl::propagate_task_group_state', source=TG),
         Job('propagate.path.any_depth.ancestor', C, 'h_propagate_any', route='LC', loops=True, nloops=2, defines=['PROPU', 'SRC_ANCESTOR'], timeout=400, inputs=['IN_n', 'IN_s', 'IN_k', 'IN_ns', 'IN_st0'],
             target='task_group_context_impl::propagate_task_group_state, ancestor chains of any length, the source is a proper ancestor of ctx', source=TG),
         Job('propagate.path.any_depth.other', C, 'h_propagate_any', route='LC', loops=True, nloops=2, defines=['PROPU'], timeout=400, inputs=['IN_n', 'IN_s', 'IN_k', 'IN_ns', 'IN_st0'],
@@ -318,16 +447,39 @@ def build(ctx):
         Job('registry.destroy', C, 'h_tgc_destroy', route='LF', defines=['REGISTRY'], target='task_group_context_impl::destroy -> context_list::remove -> destroy', source=TG),
         Job('lifetime.initialize', C, 'h_tgc_initialize', route='LF', defines=['REGISTRY'], target='task_group_context_impl::initialize', source=TG),
         Job('lifetime.reset', C, 'h_tgc_reset', route='LF', defines=['REGISTRY'], target='task_group_context_impl::reset, is_group_execution_cancelled', source=TG),
+        Job('registry.thread.register', C, 'h_thread_register', route='LF', defines=['REGISTRY', 'THREADS'], target='threading_control::register_thread -> threading_control_impl -> cancellation_disseminator::register_thread', source=CD),
+        Job('registry.thread.unregister', C, 'h_thread_unregister', route='LF', defines=['REGISTRY', 'THREADS'], target='threading_control::unregister_thread -> threading_control_impl -> cancellation_disseminator::unregister_thread', source=CD),
+        Job('walk.forwarders', C, 'h_forward_propagate', route='LF', defines=['REGISTRY', 'THREADS'], target='threading_control::propagate_task_group_state -> threading_control_impl::propagate_task_group_state', source=TC),
+        Job('registry.thread_exit.external', C, 'h_thread_exit_external', route='LF', defines=['REGISTRY', 'THREADS'], target='governor::auto_terminate -> unregister_thread, ~thread_data -> context_list::orphan', source=GOV),
+        Job('registry.thread_exit.worker', C, 'h_thread_exit_worker', route='LF', defines=['REGISTRY', 'THREADS'], target='thread_dispatcher::cleanup -> unregister_thread, governor::auto_terminate -> ~thread_data -> context_list::orphan', source=TDC),
+        Job('registry.reachable.external.no_context_left', C, 'h_reach_external', route='LF', defines=['REGISTRY', 'THREADS'], target='governor::auto_terminate: exit of an external thread whose context list is empty', source=GOV),
+        Job('registry.reachable.external.contexts_left', C, 'h_reach_external', route='LF', defines=['REGISTRY', 'THREADS', 'CONTEXTS_LEFT'], target='governor::auto_terminate: exit of an external thread that leaves a live bound context in its list', source=GOV),
+        Job('registry.reachable.worker.no_context_left', C, 'h_reach_worker', route='LF', defines=['REGISTRY', 'THREADS'], target='thread_dispatcher::cleanup: exit of a worker whose context list is empty', source=TDC),
+        Job('registry.reachable.worker.contexts_left', C, 'h_reach_worker', route='LF', defines=['REGISTRY', 'THREADS', 'CONTEXTS_LEFT'], target='thread_dispatcher::cleanup: exit of a worker that leaves a live bound context in its list', source=TDC),
         Job('bind.one_binder', C, 'h_bind_to', route='RG', defines=['BINDTO'], target='task_group_context_impl::bind_to (state word created->locked->bound|isolated)', source=TG),
     ]
+    if ctx.tier != 'quick':   # cross-check of the any-depth proof on real structs and real pointers (arbitrary forest); subsumed by propagate.path.any_depth.*, hence not part of the quick tier
+        jobs.append(Job('propagate.path', C, 'h_propagate', route='BD', bound_text='context trees of depth <= %d (ancestor chain walk unwound)' % d, defines=['PROP', 'DEPTH=%d' % d], unwind=d + 3, timeout=1500,
+            target='task_group_context_impl::propagate_task_group_state', source=TG))
     return {
         'jobs': jobs, 'sliced': sliced, 'fired': fired,
-        'trusted': ['register_with makes the context reachable by propagators from that instant (stub)', 'the canceller of the parent sets the flag first and walks the registered contexts afterwards (threading_control / cancellation_disseminator: its walk is the rely)',
-                    'SC atomics (the real code relies on the full fence issued by register_with)'],
-        'drops': ['member-pointer parameter bound to my_cancellation_requested', 'poison checks', 'ITT', 'fp settings copy -> stub'],
-        'not_decided': ['bind_to_impl when the parent has a grand-ancestor (speculative copy validated by epoch counters, mutex fallback)', 'the thread-list registry and the disseminator walk itself', 'reset by task_group::wait',
-                        'propagation for chains deeper than the bound (bounded stand-in)', 'exception side (C03)'],
-        'assumptions': ['the parent context has no parent of its own in job bind.no_missed_cancel'],
+        'trusted': ['SC atomics (the real code relies on the full fence issued by register_with and on acquire/release pairs)',
+                    'd1::mutex / scoped_lock: mutual exclusion, ~scoped_lock unlocks only a lock that still owns its mutex (SLOCK_* / LOCK_MUTEX macros)',
+                    'composition binder vs propagator: the canceller/propagator models of bind.* (flag exchange, then child-hint read, then epoch advance, then every list once, marks before the epoch sync) are the contracts proved by cancel.one_winner, walk.forwarders, walk.disseminator, walk.thread_list and propagate.path.any_depth.*',
+                    'composition list layers: the abstract list of registry.list.* / registry.thread.* / walk.* (size + membership of one watched element, index sequence) stands for the intrusive list whose push_front/remove/empty are proved on real nodes in registry.ilist.*',
+                    'cache_aligned_deallocate frees the object (the stub really frees the harness object); small_object_pool::destroy, arena/observer/dispatcher calls of governor::auto_terminate (stubs without effect on the registry)',
+                    'callers: orphan() once per list (~thread_data, proved for auto_terminate/cleanup), register_with only by the owner thread before it exits, destroy once per context, reset not concurrent with a cancellation of the same tree (documented precondition of the library)',
+                    'closed world (scan-enforced): my_cancellation_requested and the member pointer mptr_state are touched only by functions under contract here'],
+        'drops': ['member-pointer parameter bound to my_cancellation_requested', 'poison checks / poison_pointer (no-ops in the tested build: hooks only)', 'ITT', 'fp settings copy / capture -> stubs', 'the bool result of the disseminator (no caller reads it)',
+                  'TLS bookkeeping, observers, arena slot release in governor::auto_terminate -> stubs'],
+        'not_decided': ['reset by task_group::wait / run_and_wait (the callers of reset: C03 covers the waiting calls)', 'exception side (C03)',
+                        'registration sites of threads (governor::init_external_thread, thread_dispatcher::create_one_job: register_thread before the thread can bind contexts)',
+                        'proxy contexts (task_group_context::actual_context) and the public wrappers in task_group.h',
+                        'store-buffer (TSO/relaxed) reordering of the binding fast path: SC only', 'termination of the spin wait in bind_to',
+                        'whole-history composition (per-function contracts => every descendant cancelled once all calls returned) is a written argument over the proved contracts'],
+        'assumptions': ['the parent context has no parent of its own in jobs bind.no_missed_cancel.*; one concurrent propagation in bind.grand_ancestor (source: the grand-ancestor or the parent itself)',
+                        'propagate.path.any_depth: ancestor chains of up to 2^12 contexts (symbolic length); the source carries new_state while it is propagated (the disseminator backs down otherwise)',
+                        'context lists / thread lists below 2^60 / 2^40 entries', 'the cancellation flag is 0 or 1'],
     }
 
 
@@ -388,7 +540,21 @@ def replay_registry(ctx):
     return rep
 
 
+def replay_orphan(ctx, which):
+    """public-interface recipe: a bound context outlives the thread that bound it; the parent is cancelled afterwards"""
+    exe = native.build([os.path.join(HERE, 'c04_replay_orphan.cpp')], os.path.join(ctx.work, 'c04_replay_orphan'), link_tbb=True)
+    rc, out = native.run([exe, which], timeout=240)
+    rep = {'reproduced': False, 'detail': 'native scenario (%s thread gone, then cancel of the parent): the child ended cancelled' % which, 'runs': [{'cmd': exe + ' ' + which, 'rc': rc, 'output': out[-800:]}]}
+    m = re.search(r'(?m)^REPRODUCED (.*)', out)
+    if m:
+        w = re.search(r'class=(\S+)', m.group(1))
+        rep.update(reproduced=True, detail=m.group(1), witness_class=w.group(1) if w else '')
+    return rep
+
+
 def replay(ctx, jobname, failure):
+    if jobname.startswith('registry.reachable.'):
+        return replay_orphan(ctx, 'worker' if '.worker.' in jobname else 'external')
     if jobname.startswith('propagate.path'):
         return replay_path(ctx, failure)
     if jobname.startswith('registry.list.') or jobname == 'registry.destroy':
@@ -396,12 +562,18 @@ def replay(ctx, jobname, failure):
         if rep.get('reproduced') or jobname != 'registry.destroy':
             return rep
         return replay_path(ctx, None)       # a context that is not unregistered / a cancellation that reaches a wrong set: chains of real contexts in the thread's real list
-    if jobname == 'registry.register_with':
+    if jobname in ('registry.register_with', 'walk.forwarders', 'cancel.one_winner') or jobname.startswith('lifetime.'):
         return replay_path(ctx, None)
+    if jobname.startswith('registry.'):
+        return {'reproduced': False, 'detail': 'no native recipe for this job (thread registry / list primitives)'}
     if jobname.startswith('bind.no_missed_cancel'):
         return replay_f6(ctx)
     if not (jobname.startswith('walk.') or jobname == 'bind.grand_ancestor'):
         return {'reproduced': False, 'detail': 'no native recipe for this job'}
+    if jobname.startswith('walk.'):
+        rep0 = replay_path(ctx, None)        # a walk that skips lists or contexts shows without any forced schedule
+        if rep0.get('reproduced'):
+            return rep0
     exe = native.build([os.path.join(HERE, 'c04_replay.cpp')], os.path.join(ctx.work, 'c04_replay'), link_tbb=True, flags=['-fno-access-control'], includes=[os.path.join(ctx.repo, 'src')])
     rep = {'reproduced': False, 'detail': 'native schedules (propagator_first, binder_first) both ended with the bound context cancelled', 'runs': []}
     for sched in ('binder_first', 'propagator_first'):
